@@ -241,6 +241,26 @@ fn check_budget_restored(acc: &mut Acc, _rank: u64, _input: &[u8], _po: &PO) {
     acc.count("skipped-no-hooks");
 }
 
+fn check_fault_totality(acc: &mut Acc, rank: u64, t: &[u8], po: &PO) {
+    use crate::engine::choice::FaultReader;
+    let o = po.to_lexpr();
+    for k in 0..=t.len() {
+        for sticky in [true, false] {
+            for style in [Style::NextValue, Style::NextDatum, Style::ValueIter, Style::DatumIter, Style::ParserIter] {
+                acc.evals += 1;
+                let payload = (rank << 16) ^ ((k as u64) << 1) ^ sticky as u64;
+                let mut p = Parser::from_reader_custom(FaultReader { data: t, pos: 0, chunk: 1, fail_at: k, sticky, fired: 0, payload }, o);
+                let items = drive(&mut p, style, 2 * t.len() + 8, true);
+                acc.outcome(&(items.len().min(4), matches!(items.last(), Some(Item::End))));
+                if let Some(Item::Panic(pn)) = items.iter().find(|i| matches!(i, Item::Panic(_))) {
+                    let (h, pi) = (hex(t), po.index());
+                    acc.violation("totality-faults", "panic", "panic", rank, format!("style={:?} input={:?} fail_at={} sticky={} opts=[{}]", style, show_bytes(t), k, sticky, po.describe()), pn.clone(), || json!({"fault_text_hex": h, "po": pi}));
+                }
+            }
+        }
+    }
+}
+
 /// 300 consecutive over-deep errors on one parser, then a 100-deep datum must still be accepted.
 fn check_repeated_overdeep(acc: &mut Acc, api: Style) {
     let unit = format!("{} ", "(".repeat(130));
@@ -388,6 +408,10 @@ pub fn replay(sub: &str, case: &J, acc: &mut Acc) {
             _ => Src::Slice,
         };
         check_budget_history(acc, 0, &idx, src);
+        return;
+    }
+    if let Some(h) = case["fault_text_hex"].as_str() {
+        check_fault_totality(acc, 0, &unhex(h), &PO::from_index(case["po"].as_u64().unwrap_or(0)));
         return;
     }
     if let Some(h) = case["budget_input_hex"].as_str() {
@@ -596,6 +620,26 @@ pub fn run(ctx: &Ctx) -> Report {
         check_repeated_overdeep(&mut extra, Style::NextValue);
         check_repeated_overdeep(&mut extra, Style::NextDatum);
         accs.push(extra);
+        rep.absorb(sub, accs);
+    }
+    if ctx.want("totality-faults") {
+        // "every input source kind": a stream that fails — once, or from some offset on for good —
+        // is an input source too; every call still has to come back (seed C03-e2: a comment
+        // skipper that reads again after an error spins forever on a reader that keeps failing)
+        let texts: Vec<Vec<u8>> = corpus_all(false).into_iter().filter(|t| t.len() <= 16).collect();
+        let sub = Sub::new(
+            "totality-faults",
+            "a stream source failing at every byte offset of every corpus text of at most 16 bytes (malformed pool included), for good or once, read 1 byte per call; value and datum loops, value_iter, datum_iter and Iterator for Parser, default and Emacs Lisp options: every call returns (watchdog) without panicking, and a loop of at most 2*len+8 calls reaches the end of input or keeps reporting errors; non-trivial = every case",
+            &format!("{} texts x 2 option sets", texts.len()),
+        );
+        let two = [PO::default_(), PO::elisp()];
+        let accs = par_ranks(texts.len() as u64 * 2, |rank, acc| {
+            let t = &texts[(rank / 2) as usize];
+            let po = &two[(rank % 2) as usize];
+            acc.nontrivial += 1;
+            acc.sample(rank, || format!("{:?} [{}]", show_bytes(t), po.describe()));
+            check_fault_totality(acc, rank, t, po);
+        });
         rep.absorb(sub, accs);
     }
     if ctx.want("depth-budget-restored") {
